@@ -177,19 +177,69 @@ def run_obligation(task):
     return res
 
 
+def _worker(conn, task):
+    try:
+        conn.send(run_obligation(task))
+    except BaseException as e:  # noqa
+        try:
+            conn.send({"name": task["ob"]["name"], "harness": task["ob"]["harness"], "error": "worker failed: %s %s" % (type(e).__name__, e)})
+        except Exception:
+            pass
+    finally:
+        conn.close()
+
+
 def run_parallel(tasks):
-    """one forked worker per task (the IR is inherited copy-on-write); a worker that dies or overruns yields an error result"""
-    import concurrent.futures as cf
+    """one forked process per task (the IR is inherited copy-on-write), at most 16 at a time; a worker that dies or overruns
+    yields an error result for its own task only"""
     ctx = mp.get_context("fork")
-    out = [None] * len(tasks)
-    with cf.ProcessPoolExecutor(max_workers=min(16, max(1, len(tasks))), mp_context=ctx) as ex:
-        futs = {ex.submit(run_obligation, t): i for i, t in enumerate(tasks)}
-        for f, i in futs.items():
-            t = tasks[i]
+    n = len(tasks)
+    out = [None] * n
+    pending = list(range(n))
+    running = {}
+    nw = int(os.environ.get("VERIF_WORKERS", "16"))
+
+    def fail(i, why):
+        t = tasks[i]
+        out[i] = {"name": t["ob"]["name"], "harness": t["ob"]["harness"], "error": "worker failed: " + why}
+    while pending or running:
+        while pending and len(running) < nw:
+            i = pending.pop(0)
+            rc, wc = ctx.Pipe(duplex=False)
+            pr = ctx.Process(target=_worker, args=(wc, tasks[i]))
+            pr.start()
+            wc.close()
+            running[i] = (pr, rc, time.time())
+        done = []
+        for i, (pr, rc, t0) in running.items():
             try:
-                out[i] = f.result(timeout=t["time_limit_s"] + 150)
-            except Exception as e:
-                out[i] = {"name": t["ob"]["name"], "harness": t["ob"]["harness"], "error": "worker failed: %s %s" % (type(e).__name__, e)}
+                if rc.poll(0):
+                    out[i] = rc.recv()
+                    done.append(i)
+                    continue
+            except (EOFError, OSError):
+                fail(i, "worker exited without a result (exit code %s)" % pr.exitcode)
+                done.append(i)
+                continue
+            if not pr.is_alive():
+                if rc.poll(0.5):
+                    try:
+                        out[i] = rc.recv()
+                    except (EOFError, OSError):
+                        fail(i, "worker exited without a result (exit code %s)" % pr.exitcode)
+                else:
+                    fail(i, "worker exited without a result (exit code %s)" % pr.exitcode)
+                done.append(i)
+            elif time.time() - t0 > tasks[i]["time_limit_s"] + 150:
+                pr.kill()
+                fail(i, "time limit of %d s exceeded" % tasks[i]["time_limit_s"])
+                done.append(i)
+        for i in done:
+            pr, rc, _ = running.pop(i)
+            pr.join(5)
+            rc.close()
+        if not done:
+            time.sleep(0.1)
     return out
 
 
